@@ -724,6 +724,34 @@ fn g_property_view(args: &[String], r: &GetoptsRun) -> String {
     format!("[{}] diag={} {}", evs.join(";"), r.diag_lines, rest)
 }
 
+/// Where the operands start, by the documented meaning of the optstring alone (independent of getopts/model.rs):
+/// `--` ends the options and is skipped, the first argument that is not `-x…` ends them too; a letter that takes an
+/// argument takes the rest of its group or else the next argument.
+fn g_operands_from(spec: &str, args: &[String]) -> usize {
+    let mut i = 0;
+    while i < args.len() {
+        let cs: Vec<char> = args[i].chars().collect();
+        if args[i] == "--" {
+            return i + 1;
+        }
+        if cs.len() < 2 || cs[0] != '-' {
+            return i;
+        }
+        let mut takes_next = false;
+        for k in 1..cs.len() {
+            if g_judge(spec, cs[k]) == 1 {
+                takes_next = k + 1 == cs.len();
+                break;
+            }
+        }
+        i += 1;
+        if takes_next && i < args.len() {
+            i += 1;
+        }
+    }
+    args.len()
+}
+
 fn run_g(w: &[&str]) -> (String, String) {
     let bad = || ("bad-case".to_string(), "-".to_string());
     if w.len() < 2 {
@@ -742,9 +770,19 @@ fn run_g(w: &[&str]) -> (String, String) {
     });
     let oracle = guarded(|| {
         let Some(r) = run.borrow_mut().take() else { return "-".into() };
+        // `--` ends option parsing: the operands a script is left with (`shift $((OPTIND-1))`) are exactly the
+        // arguments after the first `--` in option position / from the first operand on — another `--` included
+        if let Some((_, _, _, i)) = &r.end {
+            if let Ok(n) = i.parse::<usize>() {
+                let from = g_operands_from(&spec, &args);
+                if n != from + 1 {
+                    return format!("FAIL:operands must start at argument {} but OPTIND is {n}", from + 1);
+                }
+            }
+        }
         let sep = g_separate(&spec, &args);
         if sep == args {
-            return "-".into();
+            return if r.end.is_some() { "ok".into() } else { "-".into() };
         }
         let r2 = getopts_run(&spec, &sep);
         let (a, b) = (g_property_view(&args, &r), g_property_view(&sep, &r2));
@@ -1107,6 +1145,39 @@ fn spelling_oracle(portable: bool, given: &str, separated: Option<String>) -> St
     }
 }
 
+/// Where the operands of `set` / of the shell's command line start, by the documented syntax alone: groups `-x…` / `+x…`
+/// (the letter `o` takes the rest of the group or the next argument as a name), long options `--NAME` / `++NAME`
+/// (for the command line only the ones listed in `long_arity`, anything else is not judged), then one separator `-` or
+/// `--` (skipped) or the first operand.  `Some((from, separator))`; `None` = not judged / runs off the end.
+fn so_operands_from(args: &[String], long_arity: Option<&dyn Fn(&str) -> Option<usize>>) -> Option<(usize, bool)> {
+    let mut i = 0;
+    while i < args.len() {
+        let cs: Vec<char> = args[i].chars().collect();
+        if args[i] == "-" || args[i] == "--" {
+            return Some((i + 1, true));
+        }
+        if cs.len() < 2 || !(cs[0] == '-' || cs[0] == '+') {
+            return Some((i, false));
+        }
+        if cs[1] == cs[0] {
+            match long_arity {
+                None => i += 1,
+                Some(f) => i += f(&args[i])?,
+            }
+            continue;
+        }
+        let takes_next = cs[1..].iter().position(|&c| c == 'o') == Some(cs.len() - 2);
+        i += 1;
+        if takes_next {
+            if i >= args.len() {
+                return None;
+            }
+            i += 1;
+        }
+    }
+    Some((args.len(), false))
+}
+
 fn run_t(w: &[&str]) -> (String, String) {
     let bad = || ("bad-case".to_string(), "-".to_string());
     if w.len() < 3 {
@@ -1125,6 +1196,22 @@ fn run_t(w: &[&str]) -> (String, String) {
             let o2 = observe_set(portable, &plain);
             if o2 != obs && !o2.starts_with("err:nonPortable") && !obs.starts_with("err:nonPortable") && !obs.contains("portable=1") {
                 oracle = format!("FAIL:name spelled plainly {plain:?} gives {o2}");
+            } else if oracle == "-" {
+                oracle = "ok".into();
+            }
+        }
+    }
+    // the separator ends option parsing: the new positional parameters are exactly the arguments after the first `-` / `--`
+    // in option position (or from the first operand on), verbatim; none of both = the parameters are left alone
+    if !oracle.starts_with("FAIL") && obs.starts_with("ok modify") {
+        if let Some((from, sep)) = so_operands_from(&args, None) {
+            let want = if from >= args.len() && !sep {
+                "params=~".to_string()
+            } else {
+                format!("params=[{}]", show_strs(args[from..].iter().map(|s| s.as_str())))
+            };
+            if !obs.ends_with(&format!(" {want}")) {
+                oracle = format!("FAIL:operands must be the arguments from index {from} on, verbatim ({want}): {obs}");
             } else if oracle == "-" {
                 oracle = "ok".into();
             }
@@ -1171,6 +1258,46 @@ fn run_h(w: &[&str]) -> (String, String) {
             _ => first,
         }
     };
+    // the separator ends option parsing: command string / script file / arg0 / positional parameters are the arguments after
+    // the first `-` / `--` in option position (or from the first operand on), verbatim
+    let oracle = if !oracle.starts_with("FAIL") && obs.starts_with("ok run ") && !argv.is_empty() {
+        let arity = |a: &str| -> Option<usize> {
+            match a {
+                "--profile" | "--rcfile" => Some(2),
+                "--noprofile" | "--norcfile" => Some(1),
+                _ if a.starts_with("--profile=") || a.starts_with("--rcfile=") => Some(1),
+                _ => None,
+            }
+        };
+        match so_operands_from(&argv[1..], Some(&arity)) {
+            Some((from, _)) => {
+                let e: Vec<&str> = argv[1..][from.min(argv.len() - 1)..].iter().map(|s| s.as_str()).collect();
+                let field = |k: &str| obs.split(' ').find_map(|f| f.strip_prefix(k)).unwrap_or("").to_string();
+                let src = field("src=");
+                let arg0 = field("arg0=");
+                let params = field("params=");
+                let want = |l: &[&str]| format!("[{}]", show_strs(l.iter().copied()));
+                let good = if let Some(p) = src.strip_prefix("file:") {
+                    !e.is_empty() && p == enc_str(e[0]) && arg0 == enc_str(e[0]) && params == want(&e[1..])
+                } else if let Some(c) = src.strip_prefix("string:") {
+                    !e.is_empty()
+                        && c == enc_str(e[0])
+                        && arg0 == enc_str(e.get(1).copied().unwrap_or(argv[0].as_str()))
+                        && params == want(e.get(2..).unwrap_or(&[]))
+                } else {
+                    params == want(&e) && arg0 == enc_str(&argv[0])
+                };
+                if good {
+                    if oracle == "-" { "ok".to_string() } else { oracle }
+                } else {
+                    format!("FAIL:operands must be the arguments {e:?} (from index {} on, verbatim): {obs}", from + 1)
+                }
+            }
+            None => oracle,
+        }
+    } else {
+        oracle
+    };
     let oracle = match sh_reader_defect(argv.get(1..).unwrap_or(&[])) {
         Some(true) if !oracle.starts_with("FAIL") && !obs.starts_with("err:") => format!("FAIL:group with a letter that is no option accepted: {obs}"),
         Some(true) if oracle == "-" => "ok".to_string(),
@@ -1187,12 +1314,39 @@ fn run_k(w: &[&str]) -> (String, String) {
     let portable = w[1] == "1";
     let Some(args) = w[4..].iter().map(|a| dec_str(a)).collect::<Option<Vec<String>>>() else { return bad() };
     let obs = observe_kill(portable, &args);
-    let oracle = if portable {
+    let mut oracle = if portable {
         "-".to_string()
     } else {
         let sep = separate_kill(&args);
         spelling_oracle(false, &obs, (sep != args).then(|| observe_kill(false, &sep)))
     };
+    // `--` ends option parsing: when the leading arguments are options (`-…`, where a final `s` / `n` behind `l` / `v` flags
+    // takes the next argument) followed by `--`, the targets / signals are exactly the arguments after it, verbatim
+    if !oracle.starts_with("FAIL") && obs.starts_with("ok ") {
+        let mut i = 0;
+        let mut sep = None;
+        while i < args.len() {
+            let cs: Vec<char> = args[i].chars().collect();
+            if args[i] == "--" {
+                sep = Some(i);
+                break;
+            }
+            if cs.len() < 2 || cs[0] != '-' {
+                break;
+            }
+            let npre = cs[1..].iter().take_while(|&&c| c == 'l' || c == 'v').count();
+            let takes_next = npre + 2 == cs.len() && (cs[npre + 1] == 's' || cs[npre + 1] == 'n');
+            i += if takes_next { 2 } else { 1 };
+        }
+        if let Some(k) = sep {
+            let want = format!("[{}]", show_strs(args[k + 1..].iter().map(|s| s.as_str())));
+            if !obs.split(' ').any(|f| f == want) {
+                oracle = format!("FAIL:operands must be the arguments after the `--` at index {k}, verbatim {want}: {obs}");
+            } else if oracle == "-" {
+                oracle = "ok".into();
+            }
+        }
+    }
     (obs, oracle)
 }
 
@@ -1378,7 +1532,19 @@ fn run_u(w: &[&str]) -> (String, String) {
         let untouched = changed.is_empty() && r.params == params0;
         let portable0 = state0(ShOpt::Portable) == Some(OptState::On);
         let rejected_cleanly = r.diag && r.status != 0 && r.stdout.is_empty() && untouched;
+        // an accepted invocation that modifies: the positional parameters afterwards are the arguments after the first
+        // separator / from the first operand on, verbatim (or unchanged when there is neither)
+        let print_form = args.is_empty() || (args.len() == 1 && (args[0] == "-o" || args[0] == "+o"));
+        let operands_wrong = if r.status == 0 && !r.diag && !print_form {
+            so_operands_from(&args, None).and_then(|(from, sep)| {
+                let want: Vec<String> = if from >= args.len() && !sep { params0.clone() } else { args[from..].to_vec() };
+                (r.params != want).then(|| format!("FAIL:positional parameters must be {want:?} (arguments from index {from} on, verbatim) but are {:?}", r.params))
+            })
+        } else {
+            None
+        };
         let oracle = match set_reader_defect(portable0, &args) {
+            _ if operands_wrong.is_some() => operands_wrong.unwrap(),
             Some(true) if !rejected_cleanly => format!(
                 "FAIL:malformed invocation not rejected without effect: status {}, diagnostic {}, output {}, options changed [{}], parameters {:?}",
                 r.status, r.diag, !r.stdout.is_empty(), changed.join(";"), r.params
@@ -1695,9 +1861,9 @@ fn typeset_cases(e: &mut Emitter, rng: &mut Rng, thorough: bool) {
     // the real tables: every vector over the token set
     let maxlen = if thorough { 3 } else { 2 };
     enumerate_tokens(e, &Y_TOKENS, maxlen, &mut |a| {
-        let ms = if a.len() < 3 { modes } else { &modes[..2] };
+        let ms = if a.len() < 2 || (thorough && a.len() < 3) { modes } else { &modes[..2] };
         let mut v: Vec<String> = ms.iter().map(|(ln, p)| y_case(*ln, *p, "@typeset", a)).collect();
-        if a.len() < 3 {
+        if a.len() < 2 || (thorough && a.len() < 3) {
             v.push(y_case(true, false, "@export", a));
             v.push(y_case(false, true, "@readonly", a));
         }
@@ -1705,7 +1871,7 @@ fn typeset_cases(e: &mut Emitter, rng: &mut Rng, thorough: bool) {
     });
     // odd tables and the real ones: random vectors of length 3-6 over the tokens and over tokens made from the table
     let odd = y_odd_tables();
-    let n = if thorough { 60_000 } else { 4_000 };
+    let n = if thorough { 60_000 } else { 3_000 };
     for k in 0..n {
         let (name, table): (String, Vec<TSpecD>) = match k % 10 {
             0 => ("@typeset".into(), y_table("@typeset").unwrap()),
@@ -1951,7 +2117,12 @@ fn bespoke_cases(e: &mut Emitter, rng: &mut Rng, thorough: bool) {
     }
     // every sign / letter / `o` arrangement of length <= 3 at every argument position (set and the command line)
     let signs = sign_vectors(true);
-    for v in &signs {
+    let npairs_from = sign_vectors(false).len();
+    for (vi, v) in signs.iter().enumerate() {
+        // quick: a third of the 84x84 pairs (the single arrangements and the context vectors all stay)
+        if !thorough && vi >= npairs_from && vi % 3 != 0 {
+            continue;
+        }
         let a: Vec<&str> = v.iter().map(|s| s.as_str()).collect();
         if e.mine() {
             for case in [t_case(false, &a), t_case(true, &a)] {
@@ -1997,7 +2168,7 @@ fn bespoke_cases(e: &mut Emitter, rng: &mut Rng, thorough: bool) {
         emit(&case, &obs, &oracle);
     }
     // random longer vectors
-    let n = if thorough { 40_000 } else { 3_000 };
+    let n = if thorough { 40_000 } else { 1_500 };
     for k in 0..n {
         let mut r = rng.fork();
         if !e.mine() {
@@ -2493,7 +2664,7 @@ fn history_cases(e: &mut Emitter, rng: &mut Rng, thorough: bool) {
     }
     // random histories: 1-3 sessions; resets present, missing or garbage; partial sessions followed by a changed vector
     let garbage = ["x", "0", "2", "1:2", "", "01", "+1", "1:1", "3:x", "10"];
-    let n = if thorough { 40_000 } else { 3_000 };
+    let n = if thorough { 40_000 } else { 1_200 };
     for _ in 0..n {
         let mut r = rng.fork();
         let mut steps = vec![];
@@ -3073,10 +3244,13 @@ fn g_case(spec: &str, args: &[&str]) -> String {
 fn getopts_cases(e: &mut Emitter, rng: &mut Rng, thorough: bool) {
     // exhaustive: every optstring x every vector over the tokens up to length 2 (quick) / 3 (thorough)
     let maxlen = if thorough { 3 } else { 2 };
-    for spec in G_SPECS {
+    for (sk, spec) in G_SPECS.iter().enumerate() {
+        let spec = *spec;
         let mut idx: Vec<usize> = vec![];
         'vectors: loop {
-            if e.mine() {
+            // quick: a third of the pairs per optstring (every token still in both positions for every optstring)
+            let thinned = !thorough && idx.len() == 2 && (idx[0] + idx[1] + sk) % 3 != 0;
+            if !thinned && e.mine() {
                 let args: Vec<&str> = idx.iter().map(|&i| G_TOKENS[i]).collect();
                 let case = g_case(spec, &args);
                 let (obs, oracle) = run_case(&case);
@@ -3103,7 +3277,7 @@ fn getopts_cases(e: &mut Emitter, rng: &mut Rng, thorough: bool) {
         }
     }
     // random: random optstrings over a small alphabet, random groups of letters, longer vectors
-    let n = if thorough { 60_000 } else { 3_000 };
+    let n = if thorough { 60_000 } else { 1_000 };
     let letters = ['a', 'b', 'o', 'x', 'y', ':', '-', 'é'];
     for _ in 0..n {
         let mut r = rng.fork();
@@ -3178,10 +3352,19 @@ fn main() {
     // (i) exhaustive: small tables x all vectors over the token set
     let small = small_tables(thorough);
     let has_a = |t: &Vec<SpecD>| t.iter().any(|s| s.short == Some('a'));
-    for t in &small {
-        // thorough: length 5 for the tables with `a` and `b`, length 4 for the others; quick: 4 with `b`, 3 without
+    for (ti, t) in small.iter().enumerate() {
+        // thorough: length 5 for the tables with `a` and `b`, length 4 for the others; quick (volume moved to thorough in
+        // wave 3): with `b` length 3 and every 9th table length 4, without `b` length 2 and every 3rd table length 3
         let has_b = t.iter().any(|s| s.short == Some('b'));
-        let maxlen = if thorough { if has_a(t) && has_b { 5 } else { 4 } } else if has_b { 4 } else { 3 };
+        let maxlen = if thorough {
+            if has_a(t) && has_b { 5 } else { 4 }
+        } else if has_b {
+            if ti % 9 == 0 { 4 } else { 3 }
+        } else if ti % 3 == 0 {
+            3
+        } else {
+            2
+        };
         enumerate(&mut e, "111", &show_specs(t), maxlen);
     }
     // portable mode and the three single-extension modes on shorter vectors
@@ -3192,6 +3375,6 @@ fn main() {
         }
     }
     // real tables and odd tables, random vectors
-    random_tables(&mut e, &mut rng, &tables, if thorough { 30_000 } else { 1_500 });
-    random_odd(&mut e, &mut rng, if thorough { 300_000 } else { 20_000 });
+    random_tables(&mut e, &mut rng, &tables, if thorough { 30_000 } else { 600 });
+    random_odd(&mut e, &mut rng, if thorough { 300_000 } else { 8_000 });
 }
